@@ -23,7 +23,10 @@ CFG = {
                  "reference evaluator (cases the documentation leaves open count as evaluated but not as non-trivial evidence of agreement); systematic: every "
                  "operand kind x every operator shape with `throw()` planted in the operand that must not be evaluated. Oracle on every probe-mode case: the "
                  "directly printed `{{ e }}` (the form the peephole pass fuses) gives the text of `{{ v }}` for the value v that e evaluates to, and fails exactly "
-                 "when e fails or is undefined; ternary/and/or shapes with bare variables and dotted paths (bound, unbound) in every branch.",
+                 "when e fails or is undefined; ternary/and/or shapes with bare variables and dotted paths (bound, unbound) in every branch. "
+                 "Computed keys: 8 maps (literals with integer/string/bool keys, folded and with a spread; context maps keyed by u64 / i64 / i128+u128 / strings) x 29 keys "
+                 "(literals, variables of every integer width, `0 + 1`, `n * 1`, `3 - 2`, `4 // 2`, `7 % 4`, `'a' ~ 'b'`, `xs | length`, ternaries, `or`/default) under "
+                 "`[]`, `?[`, `in`, `not in`; arrays indexed by the same keys; the model looks keys up by mathematical value across widths (Model.Order.key_eq).",
     "trusted_base": TB_COMMON + [
         "axioms: none (every C02 theorem is 'Closed under the global context')",
         "tools/gen/bp.py: transcribes binary_binding_power / unary_binding_power / TERNARY_L_BP and the documented precedence rows",
